@@ -73,6 +73,21 @@ matched by signature; a violation whose signature is not listed exits 1.
   `leanchecker` in the thorough tier, failing-input search with a larger budget and other seeds when a proof or the
   correspondence breaks, `no-failing-input-found` verdicts, known-finding signatures, exit 2 for infrastructure
   errors (including a runner that could not build or run some of its own cases).
+* A gap in the tie, found and closed in round 5: after the repair cd66bc9 (`_add_other_section_contents`) the Lean
+  model still kept the table entries of the dropped trailing block, and no runner replayed such an insertion on the
+  model - the shared campaign has no patches with CFI or alignment at the end of an extra section, and C05's runner,
+  which has them, compared only the final module with the validator. C05's runner now replays every recorded
+  `insert`/`delete` of its own cases on the model as well (6 disagreements on the first run, all this one), and the
+  model follows the repaired code. The lesson is the general one of this technique: a path the correspondence does not
+  exercise is a path on which the model is only a claim.
+* Whole-rewrite invariants added in round 5 (all with executable forms of their premises that the driver evaluates on
+  every recorded state): `Lemmas/IRSymClosed.lean` - no symbol is left on a block that left the module and the block
+  ordering lists attached blocks of the right section once per chain (C02, C05, C09); `Lemmas/IREntries.lean` - no
+  block in two functions, entries are blocks of their function (C06); `Lemmas/IRExprs.lean` - symbolic expressions name
+  symbols of the module (C05). Not attempted for the CFG ("no edge at a block that left the module"): in the model, as
+  in the code, `_remove_outgoing_edges` gives a removed block that both calls and returns for the callee's function a
+  fresh return edge to a proxy; excluding that needs an invariant on edge kinds per block that the other steps would
+  have to maintain, so the clause stays with the oracle (C03, C05).
 * No source hook was needed: `MANIFEST.hooks` is empty, all observation points are wrapped from the harness
   (`gtirb_rewriting.rewriting.insert/delete`, the `_Streamer` / `_SymbolCreator` methods, `make_return_cache`).
 * E-modify is x86-64 only (ELF, and PE for the module-level tables); the assembler engine covers x86-64 (AT&T and
